@@ -16,5 +16,8 @@ Definition round_key_cache_max : nat := 4.
 (* pdf_extractor._ttf_get_glyph_features: _FONT_CACHE key = font-only *)
 Definition font_key_has_gids : bool := false.
 
+(* pdf_extractor._open_pdf_reader: AES fallback installation = lazy *)
+Definition aes_patch_eager : bool := false.
+
 (* functools.lru_cache capacities *)
 Definition lru_caps : list nat := [256; 256; 256; 512].
